@@ -107,7 +107,61 @@ def _ext_one(item):
     return "pkg", roundtrip(pkg)
 
 
+SPELLINGS = {"1000": ["1*K", "1000*UNIT", "int", "float", "0.001*M"], "0.002": ["2*m", "2000*u", "float", "0.002*UNIT"], "2": ["int", "float", "2*UNIT", "2000*m"]}
+
+
+def _spell(h, value, how):
+    from decimal import Decimal
+    from hdl21.prefix import Prefix, Prefixed
+
+    if how == "int":
+        return int(value)
+    if how == "float":
+        return float(value)
+    num, sym = how.split("*")
+    pre = {"K": Prefix.KILO, "UNIT": Prefix.UNIT, "M": Prefix.MEGA, "m": Prefix.MILLI, "u": Prefix.MICRO}[sym]
+    return Prefixed(number=Decimal(num), prefix=pre)
+
+
+def _twins(item):
+    """Two instances of one target in one module whose parameter values are one number written in two ways: each keeps
+    its own spelling through the round trip."""
+    import hdl21 as h
+
+    target, value, a, b = item
+    try:
+        va, vb = _spell(h, value, a), _spell(h, value, b)
+        m = h.Module(name="T")
+        m.s, m.t = h.Signal(), h.Signal()
+        if target == "R":
+            ca, cb = h.R(r=va), h.R(r=vb)
+        elif target == "ext_dict":
+            e = h.ExternalModule(name="E", port_list=[h.Port(name="p"), h.Port(name="n")], paramtype=dict, domain="extdom")
+            ca, cb = e(dict(k=va, j=1)), e(dict(k=vb, j=1))
+        else:
+            @h.paramclass
+            class EP:
+                k = h.Param(dtype=h.Scalar, desc="k")
+
+            e = h.ExternalModule(name="E", port_list=[h.Port(name="p"), h.Port(name="n")], paramtype=EP, domain="extdom")
+            ca, cb = e(EP(k=va)), e(EP(k=vb))
+        m.x1 = ca(p=m.s, n=m.t)
+        m.x2 = cb(p=m.s, n=m.t)
+        m.x3 = ca(p=m.t, n=m.s)
+        pkg = h.to_proto(m)
+    except Exception as ex:
+        return "raised:" + short_exc(ex), None
+    return "pkg", roundtrip(pkg)
+
+
 def run(ctx):
+    titems = [(t, v, a, b) for t in ("R", "ext_dict", "ext_pc") for v, sp in SPELLINGS.items() for a in sp for b in sp if a != b]
+    for it, (st, r) in zip(titems, ctx.pmap(_twins, titems, chunk=20)):
+        ctx.count(states=1, transitions=3, traces_validated_against_impl=1)
+        ctx.fam("equal_values_spelled_differently", packages=1)
+        ctx.outcome(("diff" if r else "same" if st == "pkg" else st[:30]) + ":twins")
+        if r:
+            ctx.violation(dict(corpus="twins", target=it[0], what=classify(r)), dict(twins=list(it)), r)
     # (a) families
     items = []
     for f in FAMILIES:
@@ -240,6 +294,10 @@ def classify(r):
 
 
 def replay(body):
+    if "twins" in body.get("case", {}):
+        st, r = _twins(tuple(body["case"]["twins"]))
+        print("replay:", st, r or "holds")
+        return 1 if r else 0
     c = body["case"]
     if "design" in c:
         import hdl21 as h
